@@ -139,14 +139,15 @@ theorem expand_user_later (fx : Fixes) (w : Words) (fail : Nat → Bool) (prev :
   rw [if_neg hn, if_neg (by simp [hu])]
   rfl
 
-theorem shift_inv (fx : Fixes) (h7 : fx.d7 = true) (w : Words) (hw : w.Ok) (hld : w.liw ≤ w.dw) (t : MemType)
-    (ht : t ≠ .USUB) (nl : Int) (s : St) (hinv : Inv w s) (hge : s.cap t ≤ nl)
+theorem shift_inv (fx : Fixes) (w : Words) (hw : w.Ok) (hld : w.liw ≤ w.dw) (t : MemType)
+    (h7 : fx.d7 = true ∨ t ≠ .UCOL) (ht : t ≠ .USUB) (nl : Int) (s : St) (hinv : Inv w s) (hge : s.cap t ≤ nl)
     (hroom : ¬ s.full (needBytes fx t ((nl - s.cap t) * w.lword t))) :
     Inv w { (shiftAfter t ((nl - s.cap t) * w.lword t) s).setCap t nl with nexp := s.nexp + 1 } := by
   have hdw := hw.dw_pos
   have hliw := hw.liw_pos
   obtain ⟨hu, hne, hn0, hh0, hL0, hU0, hS0, hB0, hBU, c1, c2, c3, c4, c5, t12, t2s, hused, dl, il, d1, d2, d3⟩ := hinv
-  simp only [St.full, needBytes, h7] at hroom
+  have h7' : t = .UCOL → fx.d7 = true := fun h => h7.resolve_right (fun h' => h' h)
+  simp only [St.full, needBytes] at hroom
   cases t with
   | USUB => exact absurd rfl ht
   | LUSUP =>
@@ -157,7 +158,7 @@ theorem shift_inv (fx : Fixes) (h7 : fx.d7 = true) (w : Words) (hw : w.Ok) (hld 
     simp at hroom
     constructor <;> simp [shiftAfter, St.setCap] <;> omega
   | UCOL =>
-    simp only [St.cap, Words.lword] at hge hroom ⊢
+    simp only [St.cap, Words.lword, h7' rfl, and_self, if_true] at hge hroom ⊢
     have e : nl * w.dw = s.capU * w.dw + (nl - s.capU) * w.dw := by ring
     have e2 : nl * w.liw = s.capU * w.liw + (nl - s.capU) * w.liw := by ring
     have ex : 0 ≤ (nl - s.capU) * w.dw := Int.mul_nonneg (by omega) (by omega)
@@ -175,8 +176,8 @@ theorem shift_inv (fx : Fixes) (h7 : fx.d7 = true) (w : Words) (hw : w.Ok) (hld 
     constructor <;> simp [shiftAfter, St.setCap] <;> omega
 
 /-- `LUMemXpand` (any array, success or failure) keeps the invariant of the workspace -/
-theorem memXpand_inv (fx : Fixes) (h7 : fx.d7 = true) (h10 : fx.d10 = true) (w : Words) (hw : w.Ok)
-    (hld : w.liw ≤ w.dw) (fail : Nat → Bool) (t : MemType) (s : St) (hinv : Inv w s) :
+theorem memXpand_inv' (fx : Fixes) (h10 : fx.d10 = true) (w : Words) (hw : w.Ok)
+    (hld : w.liw ≤ w.dw) (fail : Nat → Bool) (t : MemType) (h7 : fx.d7 = true ∨ t ≠ .UCOL) (s : St) (hinv : Inv w s) :
     Inv w (memXpand fx w fail t s).1 := by
   rw [memXpand_eq, expand_user_later _ _ _ _ _ _ _ hinv.user (ne_of_gt hinv.nexp)]
   cases hf : userFound fx w (s.nz t) t (decide (t = .USUB)) s with
@@ -199,7 +200,7 @@ theorem memXpand_inv (fx : Fixes) (h7 : fx.d7 = true) (h10 : fx.d10 = true) (w :
         · rw [h2]; exact firstLen_gt_of_d10 fx h10 _
         · exact h2 h10
       rw [hnz] at h1 hgt ⊢
-      exact shift_inv fx h7 w hw hld t ht nl s hinv (le_of_lt hgt) h1
+      exact shift_inv fx w hw hld t h7 ht nl s hinv (le_of_lt hgt) h1
 
 /-! ### shortage is reported, nothing is touched -/
 
@@ -290,6 +291,11 @@ theorem memXpand_user_ok (fx : Fixes) (h10 : fx.d10 = true) (w : Words) (fail : 
     have : ({ (shiftAfter t ((nl - s.nz t) * w.lword t) s).setCap t nl with nexp := s.nexp + 1 } : St).nz t = nl := by
       cases t <;> simp_all [St.nz, St.setCap, shiftAfter]
     rw [this]; exact hgt
+
+theorem memXpand_inv (fx : Fixes) (h7 : fx.d7 = true) (h10 : fx.d10 = true) (w : Words) (hw : w.Ok)
+    (hld : w.liw ≤ w.dw) (fail : Nat → Bool) (t : MemType) (s : St) (hinv : Inv w s) :
+    Inv w (memXpand fx w fail t s).1 :=
+  memXpand_inv' fx h10 w hw hld fail t (Or.inl h7) s hinv
 
 theorem memXpand_user_n (fx : Fixes) (w : Words) (fail : Nat → Bool) (t : MemType) (s : St)
     (hu : s.user = true) (hn : s.nexp ≠ 0) : (memXpand fx w fail t s).1.n = s.n := by
